@@ -79,10 +79,32 @@ def corpus():
         yield {"kind": k, "children": [["4/1", "1/2", "1/2", "1/1"]], "ops": [["del", 0], ["set", "3/1"], ["add", ["1/1", "1/1", "0/1", "0/1"]], ["set", "4/1"]]}
 
 
+FLOAT_SCALES = [1e-300, 1e-160, 1e-40, 1e-5, 1.0, 1e5, 1e40, 1e150]
+
+
+def gen_float_case(rng):
+    """oracle-only stream: binary64 inputs of tiny and huge magnitudes (not modelled: ideal arithmetic).
+    Magnitudes are chosen so that D * weight stays well inside the normal float range."""
+    kind = rng.choice(KINDS)
+    n = rng.choice([1, 2, 3, 5, 8])
+    ws = rng.choice(FLOAT_SCALES)
+    lim = [d for d in FLOAT_SCALES if 1e-280 < d * ws < 1e280 and 1e-280 < d < 1e280]
+    D = rng.choice(lim) * rng.choice([1.0, 3.0, 7.5])
+    children = []
+    for _ in range(n):
+        w = ws * rng.choice([0.0, 1.0, 1.0, 2.0, 3.5]) if rng.random() < 0.9 else 0.0
+        fit = rng.choice([0.0, 0.25, 0.5, 1.0])
+        spec = {"supply": [w, fit, fit], "utilisation": [1.0, w, fit], "allocation": [1.0, fit, w], "uniform": [w, fit, fit]}[kind]
+        children.append(spec + [0.0])
+    return {"float": True, "kind": kind, "children": children, "ops": [["set", D]]}
+
+
 def gen_cases(rng, n):
     out = list(corpus())
     for c in out:
         yield c
+    for _ in range(max(40, n // 8)):
+        yield gen_float_case(rng)
     for _ in range(max(0, n - len(out))):
         kind = rng.choice(KINDS)
         nch = rng.choice([0, 1, 1, 2, 2, 3, 3, 4, 5, 6, 8])
@@ -151,7 +173,56 @@ def _observe(comp):
             "alloc": q(comp.allocation), "children": [q(c.demand) for c in comp.children]}
 
 
+def _run_float(case):
+    from cobald.composite.weighted import WeightedComposite
+    from cobald.composite.uniform import UniformComposite
+    from cobald.interfaces import Pool
+
+    class FChild(Pool):
+        def __init__(self, s, u, a, d):
+            self.s, self.u, self.a, self.d = s, u, a, d
+        supply = property(lambda self: self.s)
+        utilisation = property(lambda self: self.u)
+        allocation = property(lambda self: self.a)
+        demand = property(lambda self: self.d, lambda self, v: setattr(self, "d", v))
+
+    children = [FChild(*c) for c in case["children"]]
+    try:
+        comp = UniformComposite(*children) if case["kind"] == "uniform" else WeightedComposite(*children, weight=case["kind"])
+        comp.demand = case["ops"][0][1]
+        return {"float_obs": {"demand": comp.demand, "children": [c.demand for c in children]}}
+    except Exception as e:
+        return {"raised": "%s: %s" % (type(e).__name__, e)}
+
+
+def _oracle_float(case, res):
+    if "raised" in res:
+        return [(None, "composite raised: " + res["raised"])]
+    import math
+    D = case["ops"][0][1]
+    shares = res["float_obs"]["children"]
+    v = []
+    if not all(isinstance(x, (int, float)) and math.isfinite(x) for x in shares):
+        return [(None, "float-range: non-finite share %s for D=%r children=%s" % (shares, D, case["children"]))]
+    widx = {"supply": 0, "utilisation": 1, "allocation": 2}.get(case["kind"])
+    ws = [c[widx] for c in case["children"]] if widx is not None else [1.0] * len(shares)
+    tot = sum(ws)
+    if abs(sum(shares) - D) > 1e-9 * abs(D):
+        v.append((None, "float-conservation: sum(children)=%r D=%r weights=%s" % (sum(shares), D, ws)))
+    for i, sh in enumerate(shares):
+        want = D * ws[i] / tot if tot > 0 else D / len(shares)
+        if abs(sh - want) > 1e-9 * abs(D):
+            v.append((None, "float-proportionality: child %d got %r want %r" % (i, sh, want)))
+        if not (-1e-9 * abs(D) <= sh <= D * (1 + 1e-9)):
+            v.append((None, "float-share-bounds: child %d share %r D %r" % (i, sh, D)))
+    if res["float_obs"]["demand"] != D:
+        v.append((None, "float-read-back: %r != %r" % (res["float_obs"]["demand"], D)))
+    return v
+
+
 def run_impl(case):
+    if case.get("float"):
+        return _run_float(case)
     from cobald.composite.weighted import WeightedComposite
     from cobald.composite.uniform import UniformComposite
     children = [_mk_child(s) for s in case["children"]]
@@ -182,6 +253,8 @@ def run_impl(case):
 # ------------------------------------------------------------------ oracle (the property, on implementation observations)
 def oracle(case, res):
     v = []
+    if case.get("float") and "harness_error" not in res:
+        return _oracle_float(case, res)
     if "harness_error" in res:
         return [(None, "harness error: " + res["harness_error"])]
     if "raised" in res:
@@ -257,6 +330,8 @@ def oracle(case, res):
 
 
 def nontrivial(case, res):
+    if case.get("float"):
+        return len(case["children"]) >= 2
     return "obs" in res and any(op[0] == "set" for op in case["ops"]) and max(
         (len(o["children"]) for o in res["obs"]), default=0) >= 2
 
@@ -293,6 +368,8 @@ def _obs(o):
 
 
 def coq_case(case, res):
+    if case.get("float"):
+        return None          # binary64 stream: judged by the oracle only (the model is ideal arithmetic)
     obs = res.get("obs", [])
     return "(mkCase %s %s %s %s)" % (_kind(case["kind"]), clist(_child(c) for c in case["children"]),
                                      clist(_op(o) for o in case["ops"]), clist(_obs(o) for o in obs))
@@ -302,6 +379,9 @@ def distribution(results):
     d = {"kinds": {}, "children_max": {}, "ops": {}, "zero_total_writes": 0}
     for (c, o, _v) in results:
         d["kinds"][c["kind"]] = d["kinds"].get(c["kind"], 0) + 1
+        if c.get("float"):
+            d["float_stream"] = d.get("float_stream", 0) + 1
+            continue
         for op in c["ops"]:
             d["ops"][op[0]] = d["ops"].get(op[0], 0) + 1
         if "obs" in o:
@@ -311,6 +391,8 @@ def distribution(results):
 
 
 def shrink(case, still_fails):
+    if case.get("float"):
+        return case
     cur = case
     changed = True
     while changed:
